@@ -19,8 +19,8 @@ ASSUMPTIONS = [
     "C03_abort_bound_partial: the bound is N + (items other workers finished between the failing function's return and its worker's cancel()); "
     "the property's plain 'N' needs that window to be empty (C03_abort_bound_atomic) and is otherwise refuted by a descheduled failing worker",
 ]
-EXPLANATION = ("22 theorems in coq/Props/C03.v. Decision table (Model/WorkerConf.v): CanContinueOnError transcribed arm by arm over errors.Is-profiles, "
-               "ParsePanic and the WithRecover wrappers; proved equal to the contract for all configurations (ExcludedErrors arbitrary) and all 12 failure kinds, "
+EXPLANATION = ("24 theorems in coq/Props/C03.v. Decision table (Model/WorkerConf.v): CanContinueOnError transcribed arm by arm over errors.Is-profiles, "
+               "ParsePanic and the WithRecover wrappers; proved equal to the contract for all configurations (ExcludedErrors arbitrary) and all failure kinds (12 base kinds plus panics whose value is or wraps io.EOF / ErrIteratorSkip / ErrCurrentOpAbort / a context error, and returned errors wrapping ErrRecoveredPanic), "
                "with the []error panic refuted and characterised. Network (Model/WorkerGroup.v): splitter, pipe, N workers, cancel flag, logs, as an executable "
                "step function; invariants by induction over all reachable states: token conservation, result = reportable failures of the processed items, no "
                "un-recovered panic, continue-mode completeness, abort bound with ghost counters, failing worker never takes another item, one-worker determinism "
@@ -31,7 +31,7 @@ READY = True
 DRIVER_TIMEOUT = {"quick": 1500, "thorough": 20000}
 SEARCH_SEEDS = 1
 LEVEL_TEXT = ("Machine-checked Coq theorems. Decision table FULL: for every WorkerGroupConf (all option bits, arbitrary ExcludedErrors) and every failure kind "
-              "CanContinueOnError records/continues exactly as the contract says (panics always recorded and marked ErrRecoveredPanic, EOF/Skip never recorded, "
+              "CanContinueOnError records/continues exactly as the contract says (panics always recorded, marked ErrRecoveredPanic and governed by ContinueOnPanic whatever else their value matches — proved for every errors.Is-profile containing ErrRecoveredPanic —, EOF/Skip never recorded, "
               "context errors iff IncludeContextExpirationErrors, excluded errors never recorded and never aborting) — except a []error panic (known finding, refuted + characterised). "
               "Worker network PARTIAL (all interleavings of the modelled atomic steps; any N, input, user function): no panic escapes a worker; token conservation; "
               "result nil iff no processed item had a reportable failure; in continue mode every terminated run processed each item exactly once and reports exactly the "
